@@ -798,7 +798,7 @@ var profiles = map[string]profile{
 	// tip/chain is the most-work chain, with maintenance interleaved
 	"C01": {mask: 4, clean: 5, save: 2, load: 3, mark: 3, dupes: 4, orphans: 6},
 	// stream
-	"C07": {mask: 2 | 32, extraSubs: 3, dupes: 5, orphans: 3},
+	"C07": {mask: 2 | 32, extraSubs: 3, dupes: 5, orphans: 3, save: 1, load: 3},
 	// verdicts + refusal no-op
 	"C08": {mask: 1 | 64, dupes: 10, orphans: 10, clean: 2, mark: 3},
 	// lookups
